@@ -31,6 +31,7 @@ fixed = [
  ("C05", "7ebd098", "infinite von Karman screen unstable for finely sampled screens: PhaseScreenVonKarman(12, 0.01, 0.2, 150) constructs but its row recursion has spectral radius 1.11 (single-precision phase_covariance); screens diverge within ~100 rows"),
  ("C08", "23b1b66", "structure_function_vk(0, r0, L0) and stf_vonKarman(0, L0) returned NaN instead of 0"),
  ("C07", "9734c23", "ft_phase_screen / ft_sh_phase_screen raised IndexError when the grid size N was an unsigned NumPy integer (numpy.uint8(12), numpy.uint16(200)): -N/2 wrapped around"),
+ ("C10", "4b4066a", "twoStepFresnel lost power for very small magnifications: Dz2 = z - z/(1-m) cancels, for d2/d1 = 3.6e-9 (N=32, wvl=8.29e-6, d1=0.868, z=-0.0106) the output power was off by 3e-8 (1.5e-13 at m = 1e-3)"),
  ("C11", "dcda3e9", "angularSpectrum added 1e-10 m^2 to the squared input radius: spurious constant phase k/2 (1-m)/z 1e-10 (1e-5 rad on resolved Gaussian beams) and, for nm / pm sized grids, a magnification round trip off by 1e-8 .. 1e-7 (N=33, d=1.35e-10, wvl=1.2e-12, m=2.07)"),
 ]
 open_ = [
